@@ -221,3 +221,17 @@ Proof.
   - eapply client_segsize_le_peer; [unfold new_ssm; cbn [s_dinfo c_know]; apply assoc_set_assoc|].
     unfold d; destruct (assoc peer (c_know (n_cfg n))); reflexivity.
 Qed.
+
+(* ---------- the segment-count limit of a response comes from the request alone ---------- *)
+Lemma s_idle_maxsegs : forall a st dec ms, a_type a = 0 -> decode_max_apdu_length_accepted (a_maxresp a) = Ok (Some dec) ->
+  dec_maxsegs (a_maxsegs a) = Ok ms ->
+  s_maxsegs (h_s (fst (s_idle a st))) = ms /\ s_sra (h_s (fst (s_idle a st))) = a_sa a.
+Proof.
+  intros a [s outs ctr now live] dec ms Ht Hd Hm. destruct_ssm s.
+  unfold s_idle, s_abort. rewrite Ht, Hd, Hm. cbn [Z.eqb negb].
+  mcbn; path_split; mcbn; split; reflexivity.
+Qed.
+
+(* ... whatever the record of the client says (max-segments, max-APDU, segmentation): the check never looks at it *)
+Lemma s_refuse_ignores_record : forall s d cnt, s_refuse (set_dinfo_f d s) cnt = s_refuse s cnt.
+Proof. intros s d cnt. destruct_ssm s. reflexivity. Qed.
